@@ -667,6 +667,8 @@ def c11_case(acc, sp, kw, rng, tier, xproc=None, twin=False):
         acc.count("twins_enumerated_right_after_original")
     F = Subject(sp, flat_actions=True, **kw)
     W = lambda what: wit(sp, kw, F.modes, what)     # noqa
+    if len(sp.subnets) > 10:
+        acc.count("scenarios_with_two_digit_subnet_ids")
     mine = flat_descriptors(sp)
     theirs = F.actions
     acc.evaluations += 1
